@@ -99,6 +99,7 @@ pub fn gen_knobs(rng: &mut Rng) -> Knobs {
         tau_ps: gen_tau(rng),
         policy: gen_policy(rng),
         spurious_permille: *rng.pick(&[0u32, 0, 0, 0, 5, 50]),
+        resend_position: true,
     }
 }
 
